@@ -531,8 +531,9 @@ def run(ctx):
                     if big and quick and (sig, enc) not in (("speech", "i"), ("noise", "f"), ("clipped", "i"), ("ramp", "i"), ("ramp", "f")):
                         continue
                     eid = "%s-%s%s-%d#%s-%s" % (cfg[0], proto, "-long" if big else "", k, sig, enc)
-                    # two out of three schedules run on a USED object (fe_start after another utterance)
-                    execs.append(Exec(eid, cfg, s, sig, sigseed, enc, warm=1 if k % 3 else 0))
+                    # two out of three schedules run on a USED object: fe_start after another utterance that was completed (1) or
+                    # abandoned with samples still buffered, no fe_end (2)
+                    execs.append(Exec(eid, cfg, s, sig, sigseed, enc, warm=k % 3))
     rep.notes["schedules"] = sum(len(v) for v in scheds.values())
     rep.notes["schedules_model_predicts_frame_loss"] = predicted_loss
     done = judge(ctx, drv, execs, handback, sizes)
@@ -572,7 +573,9 @@ def run(ctx):
     rep.notes["configurations"] = {c[0]: "%s -> %d/%d" % (c[1] or "(defaults)", sizes[c[0]][0], sizes[c[0]][1]) for c in cfgs}
     need = {"keep", "noroom", "raw-create-all", "raw-create-limited", "ovf-create-all", "ovf-create-limited",
             "ovf-append-all", "ovf-append-limited"}
-    if not need <= set(branches):
+    # (executions that crashed are violations already and are not among the completed ones counted here: a branch that is
+    # missing because every call taking it crashed is a finding, not a vacuous run)
+    if not need <= set(branches) and not rep.violations:
         raise tlc.ModelError("schedules never reached mechanism branch(es) %s" % sorted(need - set(branches)))
     for ex, lines in done[:1] + done[len(done) // 2:len(done) // 2 + 1] + done[-1:]:
         evs = [json.loads(x) for x in lines]
